@@ -241,7 +241,7 @@ def playback(scratch, hp, timeout=600):
     cmd = ["cargo", "kani"] + vlib.KANI_FLAGS + ["-Z", "concrete-playback", "--concrete-playback=print", "--exact", "--harness", hp]
     rc, so, se, wall = sh(cmd, cwd=scratch.path, timeout=timeout)
     text = so + "\n" + se
-    tests = re.findall(r"/// Check for `(\w+)`: (.*)\n\s*#\[test\]\s*\nfn \w+\(\) \{\n\s*let concrete_vals: Vec<Vec<u8>> = vec!\[\n(.*?)\n\s*\];", text, re.S)
+    tests = re.findall(r"/// Check for `(\w+)`: ([^\n]*)\n\s*#\[test\]\s*\nfn \w+\(\) \{\n\s*let concrete_vals: Vec<Vec<u8>> = vec!\[\n(.*?)\n\s*\];", text, re.S)
     cands = []
     for kind, desc, body in sorted(tests, key=lambda t: t[0] == "cover"):
         vals = [bytes(int(x) for x in v.split(",") if x.strip()) for v in re.findall(r"vec!\[([0-9, ]*)\]", body)]
